@@ -166,10 +166,26 @@ pub fn main(args: &[String]) -> i32 {
                             Err(_) => json!({"class": "panic", "msg": "child died (abort / stack overflow)"}),
                         }
                     };
+                    let mut res = res;
                     if res["class"] == "hang" || res["msg"].as_str().map(|m| m.starts_with("child died")).unwrap_or(false) {
                         let _ = w.child.kill();
                         let _ = w.child.wait();
                         w = spawn();
+                        if res["class"] == "hang" {
+                            // silence can also be a loaded machine: a hang counts only if it
+                            // reproduces in a fresh child with eight times the deadline
+                            let sent = writeln!(w.stdin, "{}", req).and_then(|_| w.stdin.flush());
+                            if sent.is_ok() {
+                                match w.rx.recv_timeout(timeout * 8) {
+                                    Ok(l) => res = serde_json::from_str(&l).unwrap_or(json!({"class": "panic", "msg": "bad child output"})),
+                                    Err(_) => {
+                                        let _ = w.child.kill();
+                                        let _ = w.child.wait();
+                                        w = spawn();
+                                    }
+                                }
+                            }
+                        }
                     }
                     *results[i].lock().unwrap() = Some(res);
                 }
